@@ -74,6 +74,7 @@ func main() {
 		for i := 0; i < rep && r.Violations() == 0; i++ {
 			run.hierarchy(c.Hier, c.Case)
 		}
+		sweep()
 		r.Finish(rule)
 		return
 	}
@@ -86,6 +87,7 @@ func main() {
 		for i := lo; i < hi; i++ {
 			run.hierarchy(i, -2)
 		}
+		sweep()
 		r.Finish(rule)
 		return
 	}
@@ -141,6 +143,13 @@ func main() {
 		r.Require("role_observed/"+role, 3)
 	}
 	r.Finish(rule)
+}
+
+// sweep removes temp directories a closed resolver's late trust-anchor write
+// may have left behind.
+func sweep() {
+	time.Sleep(150 * time.Millisecond)
+	authsim.SweepTemp()
 }
 
 const rule = "distinct_nontrivial = distinct (level signing pattern, tamper kind, zone:response-role) triples whose forged response was actually sent to the resolver by a scripted server during the case; evaluations = client-visible replies judged"
